@@ -14,6 +14,10 @@ import (
 
 const verifDir = "/verif"
 
+// at most this many counterexamples are replayed on the real code per run (each replay
+// builds a driver, 2-4 s); further refuted obligations are reported without replay
+const maxReplays = 4
+
 type Baseline struct {
 	Property    string   `json:"property"`
 	Obligations []string `json:"obligations"`
@@ -119,6 +123,7 @@ type checkRun struct {
 	res       map[*Obl]SolveResult
 	work      string
 	writeBase bool
+	replays   int
 	vacuous   []string
 	coverOK   int
 	coverUnknown int
@@ -316,7 +321,13 @@ func (cr *checkRun) judge(start time.Time, stale []string) int {
 			engineErr = true
 			fmt.Printf("ENGINE ERROR: %s: %s\n", o.Name, firstLines(r.Output, 2))
 		case "sat":
-			rp := cr.replay(o, r)
+			var rp replayResult
+			if cr.replays < maxReplays {
+				cr.replays++
+				rp = cr.replay(o, r)
+			} else {
+				rp = replayResult{File: cr.writeReplay(o, r, nil, "not replayed: replay budget of this run used up"), Note: "replay budget used up"}
+			}
 			if rp.Reproduced {
 				violations = append(violations, o.Name)
 				violationLines = append(violationLines, fmt.Sprintf("VIOLATION property=%s replay=%s obligation=%s", p, rp.File, o.Name))
@@ -591,7 +602,13 @@ func (E *Engine) encodeLemmas(p string) (enc *FnEnc, err error) {
 			ls = append(ls, l)
 		}
 	}
-	if len(ls) == 0 {
+	hasTable := false
+	for _, tf := range E.CS.Tables {
+		if hasProp(tf.Props, p) {
+			hasTable = true
+		}
+	}
+	if len(ls) == 0 && !hasTable {
 		return nil, nil
 	}
 	enc = &FnEnc{E: E, Key: "lemmas", C: &FuncContract{Key: "lemmas"}, R: newTypeReg(), usedContracts: map[string]bool{}}
@@ -617,6 +634,7 @@ func (E *Engine) encodeLemmas(p string) (enc *FnEnc, err error) {
 			NDecls: len(enc.decls), Pos: fmt.Sprintf("%s:%d", strings.TrimPrefix(l.File, repoDir+"/"), l.Line), Text: l.Text, enc: enc}
 		enc.obls = append(enc.obls, o)
 	}
+	E.tableObligations(p, enc)
 	return enc, nil
 }
 
